@@ -390,5 +390,7 @@ func (r *Run) render(v value) string {
 }
 
 func typeTag(t types.Type) string {
-	return types.TypeString(t, func(p *types.Package) string { return p.Name() })
+	s := types.TypeString(t, func(p *types.Package) string { return p.Name() })
+	s = strings.ReplaceAll(s, "interface {}", "interface{}")
+	return strings.ReplaceAll(s, "interface{}", "any")
 }
